@@ -245,6 +245,18 @@ for _ in range(N):
             if shape in ("optional", "oneof", "wrap") or (shape == "singular" and vt in ("message", "timestamp", "duration")):
                 if betterproto.serialized_on_wire(back) and back.is_set(name) != ref.HasField(name):
                     note("C06 is_set differs from reference HasField", kw, name)
+        # C14: observers are pure
+        def state(x):
+            d = object.__getattribute__(x, "__dict__")
+            return (bytes(x), betterproto.serialized_on_wire(x), dict(d.get("_group_current", {})), sorted(k for k, v in d.items() if v is betterproto.PLACEHOLDER), bytes(d.get("_unknown_fields", b"")))
+        fresh = M(**kw)
+        before = state(fresh)
+        repr(fresh); fresh == M(); fresh.to_dict(); fresh.to_json(); fresh.to_pydict(); len(fresh); bool(fresh); betterproto.which_one_of(fresh, "grp")
+        for name, _, _, _ in fields:
+            fresh.is_set(name)
+        hash_ok = True
+        if state(fresh) != before:
+            note("C14 an observer changed the message", kw, f"{before[1:4]} -> {state(fresh)[1:4]}")
         import copy, pickle
         for c in (copy.copy(back), copy.deepcopy(back), pickle.loads(pickle.dumps(back))):
             if c != back or bytes(c) != data:
